@@ -2,6 +2,7 @@ import Litep2pVerif.Proofs.Substream.Codec
 import Litep2pVerif.Proofs.Substream.Sink
 import Litep2pVerif.Proofs.Substream.Varint
 import Litep2pVerif.Proofs.Substream.TokioCodec
+import Litep2pVerif.Proofs.Node.Wiring
 /-!
 # C04 — Framed substream messages round-trip exactly within configured limits
 
@@ -313,3 +314,49 @@ example : idEncode 3 [1, 2, 3] [9] = some [9, 1, 2, 3] ∧ idEncode 3 [1] [] = n
 #print axioms tokio_identity_roundtrip
 
 end Litep2pVerif.Props.C04
+
+/-! ## Wiring — the framing codec of a substream negotiated under a FALLBACK name (added after seeded C04-e2)
+
+Over the wiring model `Model/Node/Wiring.lean` (`Node.new c` = `Litep2p::new(ConfigBuilder…build())`, `notes` / `tcpHeld` =
+what the constructed protocol objects / the TCP transport hold, `protocolCodec` = `ProtocolSet::protocol_codec`), tied to
+the real code by the `node` area: real nodes built through the public API print what the CONSTRUCTED objects hold and what
+a connection's `ProtocolSet` answers for every main and fallback name; the driver prints the model's; compared exactly. -/
+namespace Litep2pVerif.Props.C04.Wiring
+open Litep2pVerif Litep2pVerif.Node
+
+/-- Kademlia setter calls of the sample: a later call overrides an earlier one; zero bounds. -/
+def sampleSets : List KadSet := [.maxRecords 5, .replication 3, .maxRecords 0, .maxProviderKeys 0, .validationMode false]
+
+/-- A configuration with fallback names, zero store bounds and non-default transport settings (non-vacuity examples). -/
+def sample : Config :=
+  { keepAliveMs := some 600, listen := [1],
+    notif := [{ name := "/n/new", max := 32, handshake := "01", fallback := ["/n/a"], mode := 'a', sync := some 7, async := none,
+                dial := some false }],
+    rr := [{ name := "/r/new", max := 256, timeoutMs := 800, fallback := ["/r/a", "/r/b"], maxInbound := some 3 }],
+    user := [⟨"/u/a", .identity 8⟩],
+    kad := [{ names := ["/k/2", "/k/1"], max := some 2048,
+              sets := sampleSets }],
+    ping := some 1, identify := true, bitswap := true, maxParallelDials := some 0,
+    tcpSets := [.readAhead 3, .parallelDials 7, .writeBuffer 4] }
+
+/-- `ProtocolSet::protocol_codec` (what every transport asks when it wraps a freshly negotiated substream) answers, for EVERY
+name a registered protocol claims — its main name and each of its fallback names —, the codec that protocol was registered
+with: a substream negotiated under a fallback name is framed exactly like one negotiated under the main name (same maximum
+size at the sender and the receiver, same framing kind). -/
+theorem codec_of_fallback_is_codec_of_main (c : Config) (w : Wired) (h : Node.new c = .ok w) :
+    ∀ r ∈ w.regs, ∀ x ∈ r.claims, protocolCodec w.regs x = some r.codec := by
+  obtain ⟨hreg, _, rfl⟩ := wire_ok h
+  exact fun r hr x hx => (protocolSet_of_claim hreg hr hx).1
+
+example : ∃ w, Node.new sample = .ok w ∧
+    ["/r/new", "/r/a", "/r/b", "/n/a", "/k/1", "/u/a"].map (protocolCodec w.regs) =
+      [some (.varint (some 256)), some (.varint (some 256)), some (.varint (some 256)), some (.varint (some 32)),
+       some (.varint (some 2048)), some (.identity 8)] := ⟨_, rfl, by decide⟩
+
+-- the seeded change (no translation of the fallback name, unbounded varint when the lookup fails) answers differently
+example : ∃ w, Node.new sample = .ok w ∧
+    ((w.regs.find? (·.name = "/r/a")).map (·.codec)).getD (.varint none) ≠ .varint (some 256) := ⟨_, rfl, by decide⟩
+
+end Litep2pVerif.Props.C04.Wiring
+
+#print axioms Litep2pVerif.Props.C04.Wiring.codec_of_fallback_is_codec_of_main
